@@ -34,12 +34,16 @@ def apply(e, action_reprs, user=None):
 
 
 def _norm(v):
-  """Canonical, hashable, NaN-stable form of an encoded cell value."""
+  """Canonical, hashable, NaN-stable form of an encoded cell value.  Numbers are compared the way
+  the engine's own `objtypes.equal_encoding` does - by their JSON representation, so 1 and 1.0
+  are the same value while True and 1 are not."""
+  if isinstance(v, bool): return ("b", v)
   if isinstance(v, float):
     if math.isnan(v): return ("nan",)
-    return ("f", repr(v))
-  if isinstance(v, bool): return ("b", v)
-  if isinstance(v, int): return ("i", v)
+    if math.isinf(v): return ("n", repr(v))
+    if v == int(v) and abs(v) < 2 ** 53: return ("n", int(v))
+    return ("n", repr(v))
+  if isinstance(v, int): return ("n", v)
   if isinstance(v, (list, tuple)): return ("l",) + tuple(_norm(x) for x in v)
   if isinstance(v, dict): return ("d",) + tuple(sorted((str(k), _norm(x)) for k, x in v.items()))
   if isinstance(v, bytes): return ("y", v)
